@@ -61,6 +61,15 @@ def pollFut (wake : Nat → R → Option (R × List Nat × Unit)) (r : R) (env :
   | some (r', env', .ready _ v) => some (r', env', .ready v)
   | _ => none
 
+/-- `Future::poll` of a scripted future whose output is a `Result` -/
+def pollResFut (wake : Nat → R → Option (R × List Nat × Unit)) (r : R) (env : World) (c : Nat) (wk : Wk) :
+    Option (R × World × Poll (Result Nat)) :=
+  match pollChild wake r env c wk with
+  | some (r', env', .pend) => some (r', env', .pending)
+  | some (r', env', .ready true v) => some (r', env', .ready (.ok v))
+  | some (r', env', .ready false e) => some (r', env', .ready (.err e))
+  | _ => none
+
 /-- `Stream::poll_next` of a scripted stream -/
 def pollStream (wake : Nat → R → Option (R × List Nat × Unit)) (r : R) (env : World) (c : Nat) (wk : Wk) :
     Option (R × World × Poll (Option Nat)) :=
